@@ -132,3 +132,21 @@ def rand_string(rng, max_n, alphabet=None):
 
 def widths_of(cps):
     return [1 if c < 0x80 else 2 if c < 0x800 else 3 if c < 0x10000 else 4 for c in cps]
+
+
+def term_vars(t):
+    """names of the harness inputs a term depends on"""
+    if isinstance(t, Int):
+        t = t.v
+    if isinstance(t, int):
+        return set()
+    out, todo, seen = set(), [t], set()
+    while todo:
+        x = todo.pop()
+        if x.get_id() in seen:
+            continue
+        seen.add(x.get_id())
+        if z3.is_const(x) and x.decl().kind() == z3.Z3_OP_UNINTERPRETED:
+            out.add(str(x).split('!')[0])
+        todo.extend(x.children())
+    return out
